@@ -170,4 +170,38 @@ theorem remove_any_table_frame_partial (s : TdfSt) (t : Nat) (now : Int) (pos : 
   unfold shiftAfter
   split <;> simp [*]
 
+
+/-- FOREIGN FILES, table level (`_partial`), the ADD half: an accepted `add_block` on ANY table leaves every entry before the slot it takes
+    exactly as it was, writes the new entry (type, format, size, dates of the block; the offset the slot carried; the comment given)
+    into that slot, and changes nothing but the offset of the unused slots behind it. -/
+theorem add_any_table_frame_partial (s : TdfSt) (b : BlkArg) (c : Str) (now : Int) (pos : Nat) (pl : Bytes)
+    (hd : hasType b.typ s.entries = false) (hf : firstUnused s.entries = some pos) (hchk : checkArg b c now = .ok pl)
+    (hh : (s.entries.drop (pos + 1)).any (fun e => e.typ != 0) = false) :
+    (addBlock s b c now).1.entries.take pos = s.entries.take pos
+    ∧ (addBlock s b c now).1.entries[pos]? = some ⟨b.typ, b.fmt, (s.entries.getD pos unusedEntry).off, b.size, b.cdate, b.mdate, now, c⟩
+    ∧ ∀ x ∈ (addBlock s b c now).1.entries.drop (pos + 1), x.typ = 0 := by
+  rw [addBlock_entries s b c now pos pl hd hf hchk hh]
+  obtain ⟨slot, h1, _, _⟩ := findIdxBy_some _ _ _ hf
+  have hlt : pos < s.entries.length := (List.getElem?_eq_some_iff.mp h1).1
+  have hlen : (s.entries.take pos).length = pos := by simp; omega
+  refine ⟨?_, ?_, ?_⟩
+  · rw [List.take_append_of_le_length (by omega)]
+    simp [List.take_take]
+  · rw [List.getElem?_append_right (by omega), hlen]; simp
+  · intro x hx
+    have hd2 : (s.entries.take pos ++ (⟨b.typ, b.fmt, (s.entries.getD pos unusedEntry).off, b.size, b.cdate, b.mdate, now, c⟩ : Entry)
+          :: (s.entries.drop (pos + 1)).map (fun x => { x with off := (s.entries.getD pos unusedEntry).off + b.size })).drop (pos + 1)
+        = (s.entries.drop (pos + 1)).map (fun x => { x with off := (s.entries.getD pos unusedEntry).off + b.size }) := by
+      have e1 : s.entries.take pos ++ (⟨b.typ, b.fmt, (s.entries.getD pos unusedEntry).off, b.size, b.cdate, b.mdate, now, c⟩ : Entry)
+            :: (s.entries.drop (pos + 1)).map (fun x => { x with off := (s.entries.getD pos unusedEntry).off + b.size })
+          = (s.entries.take pos ++ [(⟨b.typ, b.fmt, (s.entries.getD pos unusedEntry).off, b.size, b.cdate, b.mdate, now, c⟩ : Entry)])
+            ++ (s.entries.drop (pos + 1)).map (fun x => { x with off := (s.entries.getD pos unusedEntry).off + b.size }) := by simp
+      have e2 : (s.entries.take pos ++ [(⟨b.typ, b.fmt, (s.entries.getD pos unusedEntry).off, b.size, b.cdate, b.mdate, now, c⟩ : Entry)]).length = pos + 1 := by
+        simp; omega
+      rw [e1, ← e2, List.drop_left]
+    rw [hd2] at hx
+    obtain ⟨y, hy, rfl⟩ := List.mem_map.mp hx
+    have := List.any_eq_false.mp hh y hy
+    simpa using this
+
 end Tdf.C04
